@@ -219,7 +219,7 @@ def compile_time_part(ctx):
 def run(ctx):
     ctx.cov["rule"] = ("(a) every n below 2^26 (2^30 thorough) vs an independent segmented sieve: is_prime, miller_rabin(2), strong_lucas, baillie_psw, "
                        "find_prime_factor; (b) adversarial 64-bit inputs selected by independent code (strong base-2 / strong Lucas pseudoprime families, "
-                       "Carmichael numbers, prime squares, twin products, semiprimes near 2^16/2^31/2^32, neighbours of every 2^k, 2^64-d) vs deterministic "
+                       "Carmichael numbers, prime squares, twin products, semiprimes near 2^16/2^31/2^32, neighbours of every 2^k, 2^64-d, k*2^t+-1 for every t < 64 and odd k < 256) vs deterministic "
                        "7-base Miller-Rabin; (c) add/sub/mul/half/pow_mod under documented preconditions on an enumerated edge grid + rapidcheck draws "
                        "(moduli near 2^63/2^64/2^32) vs unsigned __int128; (d) Hypothesis-generated a,b: static_assert(mag<a>()*mag<b>()==mag<a*b>()) and "
                        "is_same<decltype(mag<n>()), factorisation spelled from sympy>. Non-trivial: primes and composites passing one half of "
